@@ -77,7 +77,7 @@ class Replica:
         """Re-wrap every discovered cache with another maxsize in every namespace that references it."""
         new_for = {}
         for name, c in self.caches():
-            new_for[id(c)] = (c, functools.lru_cache(maxsize)(c.__wrapped__))
+            new_for[id(c)] = (c, functools.lru_cache(maxsize, typed=bool(c.cache_parameters().get('typed')))(c.__wrapped__))
         for mname in sorted(self.mods):
             m = self.mods[mname]
             for attr in sorted(vars(m)):
